@@ -7,5 +7,5 @@ Delims3 == {<<>>, <<58>>, <<58, 32>>}
 Src1 == InputsUpTo(1)
 Src2 == UNION {[1 .. k -> Alpha7] : k \in 0 .. 2}
 Src3 == UNION {[1 .. k -> {97, 32, 58, 34, 92}] : k \in 0 .. 3}
-ObsEmitHist(op, args, ret, post) == PrintT(ToJson([h |-> args]))
+ObsEmitHist(op, args, ret, post) == PrintT(ToJson([h |-> args, lv |-> DebugLevels]))
 ================================================================================
